@@ -45,6 +45,11 @@ def _esc(text, specials, style):
 def write_key(text, sep, style=0, first=False):
     specials = set(_KEY_SPECIALS)
     specials.add(sep)
+    if "*" in text and not any(c in text for c in "[]()"):
+        # an undemarcated * is a wildcard; a literal one must be demarcated
+        q = '"' if style in (2, 4) else "'"
+        return q + "".join("\\" + c if c in "'\"\\" else c
+                           for c in text) + q
     out = _esc(text, specials, style)
     if out and out[0] == "&" and style == 0:
         out = "\\" + out
